@@ -243,6 +243,11 @@ var c09Ops = []string{
 	`n := 0; for i := 0; i < 40; i++ { n += i }; out.append(n); out.append(byte(65))`,
 	`out.append(string(sorted({3, 1, 2})))`,
 	`t := spawn(func(a) { return a * 2 }, 21); out.append(t.wait())`,
+	// what reflection on a host value hands out belongs to the evaluation that
+	// asked: changing it must not show anywhere else
+	`gm := svc.__type__.attributes["Sum"]; ei := gm.error_indices; nz := len(ei); ei.append(99); out.append(nz); out.append(len(gm.error_indices)); out.append(gm.num_in)`,
+	`at := rec.__type__.attributes; nz := len(at); at["injected"] = 1; out.append(nz); out.append(len(rec.__type__.attributes)); out.append(at["A"].name)`,
+	`ei := svc.__type__.attributes["Keys"].error_indices; out.append(string(ei)); ei.append(7); ej := svc.__type__.attributes["Sum"].error_indices; out.append(string(ej)); ej.append(8)`,
 }
 
 func genC09Program(g *sim.Stream) string {
@@ -255,7 +260,7 @@ func genC09Program(g *sim.Stream) string {
 		// (string literals are left alone: only code outside quotes is renamed)
 		parts := strings.Split(op, `"`)
 		for pi := 0; pi < len(parts); pi += 2 {
-			for _, v := range []string{"n", "t", "tr", "sm", "bmp", "z", "mkf", "deep1"} {
+			for _, v := range []string{"n", "t", "tr", "sm", "bmp", "z", "mkf", "deep1", "ei", "ej", "gm", "at", "nz"} {
 				parts[pi] = regexp.MustCompile(`\b`+v+`\b`).ReplaceAllString(parts[pi], fmt.Sprintf("%s%d", v, i))
 			}
 		}
